@@ -281,6 +281,10 @@ def check_message(ctx, case, toks, b, tag, max_depth, budget):
         else:
             bad.append((e + '.001001[0]', cs + [('.', '001001', 0)]))
     exprs = [(sel + e, cs, None) for e, cs in paths + bad] + [(sel + e, None, i) for e, _, i in desc]
+    # slices whose start is negative while the stop is not (or the step is negative with a stop): resolved against ALL
+    # matching siblings, not against those seen before the stop
+    for e in case.get('extra_paths', []):
+        exprs.append((sel + e, None, None))
     simple = set(e for e, _, _ in exprs)      # every path: the Coq reference covers descendant steps too (QueryRef.jdesc)
     lines, meta = model_lines(toks, flat, [e for e, _, _ in exprs], compressed)
     mouts = dict(zip(meta, lib.run_model_sharded(lines) if len(lines) > 3000 else lib.run_model(lines)))
@@ -395,6 +399,17 @@ def run(ctx):
         comp = rng.random() < 0.3
         cases.append({'ids': ids, 'version': 33, 'edition': 4, 'nsub': rng.choice([1, 2]), 'compressed': comp, 'forced': '-',
                       'seed': rng.randrange(1, 2 ** 32), 'maxrep': 3, 'features': {'repeated-siblings': 1}, 'shared': comp})
+    for k in range(ctx.n(8, 60)):
+        a, b2 = rng.sample([4004, 4005, 12001, 1001, 2001, 5002], 2)
+        m = rng.choice([4, 5, 6])
+        ids = [a] * m + [b2] if k % 2 == 0 else [100000 + (m + 1) * 1000 + 2] + [a] * m + [b2]
+        pre = '/%06d' % a if k % 2 == 0 else '/%06d/%06d' % (ids[0], a)
+        sl = ['[-2:%d]' % (m - 1), '[-2:%d]' % (m - 2), '[-3:2:1]', '[-1:2]', '[-%d:1]' % (m - 1), '[:0:-1]', '[%d:1:-1]' % (m - 1),
+              '[-1:0:-2]', '[-2:]', '[:-2]']
+        comp = rng.random() < 0.3
+        cases.append({'ids': ids, 'version': 33, 'edition': 4, 'nsub': rng.choice([1, 2]), 'compressed': comp, 'forced': '-',
+                      'seed': rng.randrange(1, 2 ** 32), 'maxrep': 3, 'features': {'many-siblings-mixed-sign-slices': 1},
+                      'shared': comp, 'extra_paths': [pre + x for x in sl]})
     # a replication whose repetitions differ in what they contain: a nested delayed replication with count 0 in a middle
     # repetition and a non-zero count later (a repetition that yields nothing must not end the enclosing envelope)
     for k in range(ctx.n(16, 160)):
@@ -463,6 +478,8 @@ def run(ctx):
                 'edition': c['edition'], 'compressed': c['compressed']}
         if '||' in c['forced']:
             case['all_subsets'] = True
+        if c.get('extra_paths'):
+            case['extra_paths'] = c['extra_paths']
         for f in c['features']:
             ctx.dist[f] += 1
         check_message(ctx, case, c['toks'], e[3], 'generated', ctx.n(4, 6), ctx.n(14, 40))
